@@ -223,6 +223,14 @@ def run(ctx):
                 ctx.count('shape_cases')
                 ctx.add('shapes', name)
                 check_case(ctx, dec, enc, msg, 'shape', name, decc, D)
+    for nsub in (2, 3, 4):
+        for name, msg in cases.same_layout_cases(ctx.rng, nsub=nsub):
+            n += 1
+            if not ctx.mine(n):
+                continue
+            ctx.count('same_layout_cases')
+            ctx.add('shapes', name)
+            check_case(ctx, dec, enc, msg, 'shape', name, decc, D)
     k = 0
     while k < QUOTA[ctx.tier] and ctx.more():
         k += 1
